@@ -70,3 +70,9 @@ func (s *BadgerStore) VerifView(f func(get func(key []byte) ([]byte, bool))) {
 		return nil
 	})
 }
+
+// VerifCommitVersion is Badger's commit timestamp of the graph database: it advances by one with every committed
+// read-write transaction, so the difference around a store call is the number of separate commits the call made.
+func (s *BadgerStore) VerifCommitVersion() uint64 {
+	return s.snapshotsDB.MaxVersion()
+}
